@@ -18,7 +18,7 @@
      return         with/without a value; flag h: the value expression is opaque as above
      break, continue
    and blocks: code block, if/else, loop (while and desugared for; the `cont` of a for loop is
-   at most one simple statement -- the grammar only admits a plain statement there), try with an
+   at most one simple statement -- the grammar only allows a plain statement there), try with an
    undo or stop handler, preempt.  Conditions are abstracted to what hidc's constant folding
    leaves behind: a BoolValue true, a BoolValue false, or something else (`unknown`; `opaque`
    when the condition may itself defeat or fault).
@@ -1153,27 +1153,38 @@ Proof.
 Qed.
 
 (* ------------------------------------------------------------------ analysing twice changes nothing *)
+Lemma idem_parts b :
+  analyse (trunc b) = (trunc b, modes_of b) ->
+  trunc (trunc b) = trunc b /\ modes_of (trunc b) = modes_of b.
+Proof. intros E. unfold trunc at 1, modes_of at 1. rewrite E. auto. Qed.
+Lemma idem_parts_stmts ss m fc :
+  analyse_stmts (trunc_stmts ss m fc) m fc = (trunc_stmts ss m fc, modes_stmts ss m fc) ->
+  trunc_stmts (trunc_stmts ss m fc) m fc = trunc_stmts ss m fc /\
+  modes_stmts (trunc_stmts ss m fc) m fc = modes_stmts ss m fc.
+Proof. intros E. unfold trunc_stmts at 1, modes_stmts at 1. rewrite E. auto. Qed.
+
 Theorem analyse_idem_mutual :
   (forall b, analyse (trunc b) = (trunc b, modes_of b)) /\
   (forall ss m fc, analyse_stmts (trunc_stmts ss m fc) m fc = (trunc_stmts ss m fc, modes_stmts ss m fc)).
 Proof.
   apply block_stmts_mutind.
-  - intros ss IH. unf. rewrite analyse_code. unfold trunc_stmts at 1, modes_stmts at 1.
-    rewrite IH. reflexivity.
-  - intros c t IHt e IHe. unf. rewrite analyse_if. unfold trunc at 1 2, modes_of at 1 2.
-    rewrite IHt, IHe. reflexivity.
-  - intros c b IHb k. unf. rewrite analyse_loop. unfold trunc at 1, modes_of at 1.
-    rewrite IHb. reflexivity.
-  - intros b IHb k h IHh. unf. rewrite analyse_try. unfold trunc at 1 2, modes_of at 1 2.
-    rewrite IHb, IHh. reflexivity.
-  - intros b IHb. unf. rewrite analyse_preempt. unfold trunc at 1, modes_of at 1.
-    rewrite IHb. reflexivity.
+  - intros ss IH. unf. rewrite analyse_code.
+    destruct (idem_parts_stmts _ _ _ (IH initial_mode initial_found_continue)) as [-> ->]. reflexivity.
+  - intros c t IHt e IHe. unf. rewrite analyse_if.
+    destruct (idem_parts _ IHt) as [-> ->]. destruct (idem_parts _ IHe) as [-> ->]. reflexivity.
+  - intros c b IHb k. unf. rewrite analyse_loop. destruct (idem_parts _ IHb) as [-> ->]. reflexivity.
+  - intros b IHb k h IHh. unf. rewrite analyse_try.
+    destruct (idem_parts _ IHb) as [-> ->]. destruct (idem_parts _ IHh) as [-> ->]. reflexivity.
+  - intros b IHb. unf. rewrite analyse_preempt. destruct (idem_parts _ IHb) as [-> ->]. reflexivity.
   - reflexivity.
   - intros a r IH m fc. unf. destruct (loop_exit_guard m fc) eqn:G; [reflexivity|].
-    rewrite analyse_stmts_atom, G. unfold trunc_stmts at 1, modes_stmts at 1. rewrite IH. reflexivity.
+    rewrite analyse_stmts_atom, G.
+    destruct (idem_parts_stmts _ _ _ (IH (atom_update a m) (atom_continue a || fc)%bool)) as [-> ->].
+    reflexivity.
   - intros b IHb r IHr m fc. unf. destruct (loop_exit_guard m fc) eqn:G; [reflexivity|].
-    rewrite analyse_stmts_block, G. unfold trunc at 1, modes_of at 1 2. rewrite IHb. simpl.
-    unfold trunc_stmts at 1, modes_stmts at 1. fold (modes_of b). rewrite IHr. reflexivity.
+    rewrite analyse_stmts_block, G. destruct (idem_parts _ IHb) as [-> ->].
+    destruct (idem_parts_stmts _ _ _ (IHr (block_update m (modes_of b)) (block_continue || fc)%bool)) as [-> ->].
+    reflexivity.
 Qed.
 
 Theorem analyse_idem : forall b, analyse (fst (analyse b)) = analyse b.
@@ -1181,3 +1192,156 @@ Proof.
   intros b. fold (trunc b). rewrite (proj1 analyse_idem_mutual).
   unfold trunc, modes_of. destruct (analyse b); reflexivity.
 Qed.
+
+(* ------------------------------------------------------------------ jumps end their block *)
+(* In an analysed tree a return / break / continue is always the last statement of its code
+   block (gen_stmts stops emitting at the first of them: nothing it skips exists). *)
+Definition is_jump (a : atom) : bool :=
+  match a with AReturn _ _ | ABreak | AContinue => true | ASimple _ => false end.
+
+Fixpoint jumps_last (b : block) : bool :=
+  match b with
+  | BCode ss => jumps_last_stmts ss
+  | BIf _ t e => jumps_last t && jumps_last e
+  | BLoop _ body _ => jumps_last body
+  | BTry body _ h => jumps_last body && jumps_last h
+  | BPreempt body => jumps_last body
+  end
+with jumps_last_stmts (ss : stmts) : bool :=
+  match ss with
+  | SNil => true
+  | SAtom a r => (if is_jump a then match r with SNil => true | _ => false end else true) && jumps_last_stmts r
+  | SBlock b r => jumps_last b && jumps_last_stmts r
+  end.
+
+Lemma trunc_guarded ss m fc : loop_exit_guard m fc = true -> trunc_stmts ss m fc = SNil.
+Proof. intros G. destruct ss; unf; rewrite ?G; reflexivity. Qed.
+
+Theorem trunc_jumps_last_mutual :
+  (forall b, jumps_last (trunc b) = true) /\
+  (forall ss m fc, jumps_last_stmts (trunc_stmts ss m fc) = true).
+Proof.
+  apply block_stmts_mutind.
+  - intros ss IH. unf. simpl. apply IH.
+  - intros c t IHt e IHe. unf. simpl. rewrite IHt, IHe. reflexivity.
+  - intros c b IHb k. unf. simpl. exact IHb.
+  - intros b IHb k h IHh. unf. simpl. rewrite IHb, IHh. reflexivity.
+  - intros b IHb. unf. simpl. exact IHb.
+  - reflexivity.
+  - intros a r IH m fc. unf. destruct (loop_exit_guard m fc) eqn:G; [reflexivity|].
+    destruct (guard_false _ _ G) as [Gm _]. simpl. rewrite IH, andb_true_r.
+    destruct (is_jump a) eqn:J; [|reflexivity].
+    rewrite trunc_guarded; [reflexivity|]. rewrite guard_spec.
+    destruct a as [s|v h| |]; try discriminate J;
+      rewrite ?upd_return, ?upd_break, ?has_replace, ?Gm, ?atom_continue_spec; simpl;
+      rewrite ?orb_true_r; reflexivity.
+  - intros b IHb r IHr m fc. unf. destruct (loop_exit_guard m fc); [reflexivity|].
+    simpl. rewrite IHb, IHr. reflexivity.
+Qed.
+
+Theorem trunc_jumps_last : forall b b' m, analyse b = (b', m) -> jumps_last b' = true.
+Proof.
+  intros b b' m E. destruct (analyse_eq _ _ _ E) as [-> _]. apply (proj1 trunc_jumps_last_mutual).
+Qed.
+
+(* ------------------------------------------------------------------ examples *)
+Definition sq (l : list (atom + block)) : stmts :=
+  fold_right (fun x r => match x with inl a => SAtom a r | inr b => SBlock b r end) SNil l.
+Definition code (l : list (atom + block)) : block := BCode (sq l).
+Definition A (a : atom) : atom + block := inl a.
+Definition B (b : block) : atom + block := inr b.
+Definition plain := A (ASimple Plain).
+Definition ret_v := A (AReturn true false).
+Definition ret_e := A (AReturn false false).
+
+(* README, `int @max(const int[] arr)`:
+     try { int max_val = arr[0];
+           for (int i = 1; i < arr.length; i += 1) {
+             if (arr[i] > max_val) { max_val = arr[i]; preempt { return max_val; } } }
+           !is_defeat();
+     } undo { return arr[0]; }                                                          *)
+Definition max_body : stmts :=
+  sq [B (BTry
+           (code [plain;
+                  B (code [plain;
+                           B (BLoop CUnknown
+                                (code [B (BIf CUnknown
+                                            (code [plain; B (BPreempt (code [ret_v]))])
+                                            (code []))])
+                                (Some Plain))]);
+                  A (ASimple IsDefeat)])
+           Undo
+           (code [ret_v]))].
+
+Example max_modes : analyse (BCode max_body) = (BCode max_body, RETURN).
+Proof. reflexivity. Qed.
+Example max_accepted : elab_func true false RetValue max_body = Accepted max_body RETURN.
+Proof. reflexivity. Qed.
+Example max_closed : closed_stmts false max_body = true.
+Proof. reflexivity. Qed.
+Example max_visible : visible (BCode max_body) = true.
+Proof. reflexivity. Qed.
+(* one of its executions: the loop is left at once, the try body is defeated, undo returns *)
+Example max_runs : exec_stmts max_body (Return true).
+Proof.
+  apply X_block_stop; [|discriminate]. apply X_try_handle.
+  - constructor. apply X_atom_next; [repeat constructor|].
+    apply X_block_next.
+    + constructor. apply X_atom_next; [repeat constructor|].
+      apply X_block_next; [|constructor]. apply X_loop_exit. exact I.
+    + apply X_atom_stop; [repeat constructor | discriminate].
+  - constructor. apply X_atom_stop; [constructor | discriminate].
+Qed.
+
+(* dropping: { return; x = 1; }  and the found_continue quirk: while (true) { continue; break; } *)
+Definition drop1 : block := code [ret_e; plain].
+Example drop1_analysis : analyse drop1 = (code [ret_e], RETURN).
+Proof. reflexivity. Qed.
+Definition drop2 : block := BLoop CTrue (code [A AContinue; A ABreak]) None.
+Example drop2_analysis : analyse drop2 = (BLoop CTrue (code [A AContinue]) None, LOOP).
+Proof. reflexivity. Qed.
+(* without the quirk the `break` would be kept and the loop would have mode NONE *)
+Example drop2_contrast : analyse (BLoop CTrue (code [A ABreak]) None) = (BLoop CTrue (code [A ABreak]) None, NONE).
+Proof. reflexivity. Qed.
+Example drop1_unreachable_option : elab_func true false RetEmpty (sq [ret_e; plain]) = Rejected ErrUnreachable.
+Proof. reflexivity. Qed.
+
+(* int f(bool c) { if (c) { return 1; } }  is rejected;  the empty version gets its return *)
+Definition half_return : stmts := sq [B (BIf CUnknown (code [ret_v]) (code []))].
+Example half_return_modes : modes_of (BCode half_return) = m_or NONE RETURN.
+Proof. reflexivity. Qed.
+Example half_return_rejected : elab_func false false RetValue half_return = Rejected ErrMissingReturn.
+Proof. reflexivity. Qed.
+Definition half_return_e : stmts := sq [B (BIf CUnknown (code [ret_e]) (code []))].
+Example half_return_empty_accepted :
+  elab_func false false RetEmpty half_return_e = Accepted (app_stmts half_return_e (sq [ret_e])) RETURN.
+Proof. reflexivity. Qed.
+(* int f() { while (true) { } }  is accepted: it never completes *)
+Example spin_accepted :
+  elab_func true false RetValue (sq [B (BLoop CTrue (code []) None)])
+  = Accepted (sq [B (BLoop CTrue (code []) None)]) LOOP.
+Proof. reflexivity. Qed.
+(* int !f() { for (;; !is_defeat()) { } }  is accepted with mode LOOP although it is defeated *)
+Example for_cont_defeat_accepted :
+  elab_func true true RetValue (sq [B (code [B for_cont_defeat])])
+  = Accepted (sq [B (code [B for_cont_defeat])]) LOOP.
+Proof. reflexivity. Qed.
+
+(* the hypotheses of the theorems are satisfiable *)
+Example sound_hyps_sat :
+  exists b b' m o, analyse b = (b', m) /\ visible b' = true /\ exec b' o /\ core o.
+Proof.
+  exists (BCode max_body), (BCode max_body), RETURN, (Return true).
+  split; [reflexivity|]. split; [reflexivity|]. split; [constructor; exact max_runs | exact I].
+Qed.
+Example dead_hyps_sat : exists b b' m, analyse b = (b', m) /\ b <> b'.
+Proof. exists drop1, (code [ret_e]), RETURN. split; [reflexivity | discriminate]. Qed.
+Example accepted_hyps_sat :
+  exists ue d ret body ss m o,
+    elab_func ue d ret body = Accepted ss m /\ closed_stmts false body = true /\ exec_stmts ss o.
+Proof.
+  exists true, false, RetValue, max_body, max_body, RETURN, (Return true).
+  split; [reflexivity|]. split; [reflexivity | exact max_runs].
+Qed.
+Example missing_return_hyps_sat : exists body, has F_NONE (modes_of (BCode body)) = true.
+Proof. exists half_return. reflexivity. Qed.
